@@ -8,6 +8,7 @@ PROP = "C10"
 THEOREM_FILE = "Props/C10.v"
 EXTRA_THEOREM_FILES = ["Props/C10_src.v"]     # source tie: translated source = model (DESIGN 5.1b)
 EXTRA_THEOREM_FILES.append("Props/C10_src_iter.v")     # (SRCE) source tie of iter_iprange, __iter__, __nonzero__
+EXTRA_THEOREM_FILES.append("Props/C10_code.v")     # (CODA) code-level theorems: the property about the regenerated definitions
 SSIZE_MAX = 2 ** 63 - 1
 RULE = ("objects: every network (with and without host bits), range and IPv4 glob of size<=16 inside the small arenas "
         "of harness/gens.py (bottom/top /26 and a mid /24 of IPv4, ::/122, top /122 and a mid /120 of IPv6) plus "
